@@ -234,6 +234,16 @@ def melody_case(draw):
     kw = c.pop("kw")
     if draw(st.integers(0, 4)) == 0:
         kw["base_frequency"] = draw(MEL_KW["base_frequency"])
+    # time grid: the exact 1/8 s lattice, or real-world grids whose values are not exactly representable / not fixed points of
+    # rounding to 10 decimals (hop of 256 samples at 44.1 kHz, decimal 0.1 s steps)
+    grid = draw(st.sampled_from(["lattice", "lattice", "hop256", "decimal"]))
+    if grid != "lattice":
+        g_ = 256 / 44100 if grid == "hop256" else 0.1
+        c["ref_time"] = [round(t * 8) * g_ for t in c["ref_time"]]
+        c["est_time"] = [round(t * 8) * g_ for t in c["est_time"]]
+        if "hop" in kw:
+            kw["hop"] = g_ * draw(st.sampled_from([1, 2, 0.5]))
+        shape = shape + ":" + grid if shape != "regular" else shape
     return {"shape": shape, "ref": {"time": c["ref_time"], "freq": c["ref_freq"]}, "est": {"time": c["est_time"], "freq": c["est_freq"]}, "kw": kw}
 
 
